@@ -89,6 +89,11 @@ def prepare(root, seed):
         for k, role in enumerate(roles):
             r = random.Random(f"{seed}/C18/boot/{j}/{k}")
             d = G.envelope(r, maxdep=0, p_dep=0.0)
+            for key in list(d["SUIT_Envelope_Tagged"]):
+                # envelope-level members that storage does not strip (e.g. a long suit-install-legacy) could make the
+                # stored envelope larger than its slot: the operation must be a VALID one for every seed
+                if key not in ("suit-authentication-wrapper", "suit-manifest"):
+                    del d["SUIT_Envelope_Tagged"][key]
             m = d["SUIT_Envelope_Tagged"]["suit-manifest"]
             for key in list(m):
                 if key not in ("suit-manifest-version", "suit-manifest-sequence-number", "suit-common"):
